@@ -132,6 +132,10 @@ inductive Outcome
   | panicRepair     -- repair walked off a missing block: (*head).Root() on nil
   deriving DecidableEq, Repr
 
+def Outcome.isOk : Outcome → Bool
+  | .ok _ _ => true
+  | _ => false
+
 /-- `repair`: roll the head back until a block with state is found; `bc.GetBlock(parent, num-1)` may return nil, the
     next iteration then dereferences it.  Fuel = number + 1 suffices because the number strictly decreases. -/
 def repair (db : Db) : Nat → Hash → Hdr → Outcome
